@@ -1210,8 +1210,58 @@ def c20_columns_group(mir, ctx):
     return [g]
 
 
+def c20_incref_total_group(mir, ctx):
+    """StringPool::incref with its scan loop unrolled (<= 2 entries), the pool's length symbolic: can it panic?"""
+    fn = mir.find(r"stringpool::.*::incref$")
+    from .mir_protocol import struct_fields
+    psrc = open(os.path.join(REPO, "src/internal/stringpool.rs")).read()
+    pf = struct_fields(psrc, "StringPool")
+    lens = {}
+    it_models, what_of, coll = iter_models(ctx, lens, consistent=True)
+    n_entries = ctx.fresh_int("pool_entries", None, 0, 1 << 30)
+    long_refs = ctx.fresh_bool("long_string_refs")
+
+    def m_len(ex, callee, args, pc, events):
+        return [(pc, events, IntV(n_entries.term, "usize"))]
+
+    def m_panic(ex, callee, args, pc, events):
+        return [(pc, events, Outcome("panic", pc, msg="panic in StringPool::incref", events=events))]
+
+    models = [(r"Vec::<\(String, u16\)>::len$", m_len), (r"panic_fmt$|core::panicking::panic$|panicking::panic_display", m_panic),
+              (r"<String as PartialEq>::eq$", lambda ex, callee, args, pc, events: [(pc, events, BoolV(ctx.fresh_bool("same_text").term))])] + it_models
+    ex = M.Exec(mir, ctx, models=models, havoc_unknown=True)
+    ex.max_revisit = 3
+    fields = [OpaqueV("pool." + f) for f in pf]
+    fields[pf.index("long_string_refs")] = BoolV(long_refs.term)
+    ex.new_obj("pool", fields)
+    outs = ex.run(fn, [M.ObjV("pool"), OpaqueV("text")])
+    outs = outs + ex._pending_panics
+    ex._pending_panics = []
+    g = Group("incref_total", ["stringpool::StringPool::incref (scan loop unrolled)"],
+              note="StringPool::incref returns for every pool size and reference width (it has no error path: anything else is a panic reachable "
+                   "from insert_rows / update_rows / create_table)")
+    msgs = re.findall(r'panic!\(\s*"((?:[^"\\]|\\.)*)"', psrc)
+    n = 0
+    for k, o in enumerate(outs):
+        if o.kind == "panic":
+            short = "(>= %s 65535)" % n_entries.term
+            which = "Too many strings; rewriting to long string refs is not yet supported" if True else ""
+            # tell the two capacity panics apart by what the path condition forces
+            g.queries.append(Query("panic_short_%d" % k, o.pc + [s_not(long_refs.term)], "unsat", get={"pool_entries": n_entries.term},
+                                   note="incref panics ('Too many strings; rewriting to long string refs is not yet supported') when a pool with two-byte references is full"))
+            g.queries.append(Query("panic_long_%d" % k, o.pc + [long_refs.term], "unsat", get={"pool_entries": n_entries.term},
+                                   note="incref panics ('Too many distinct strings in string pool') when a pool with three-byte references is full"))
+        elif o.kind == "return":
+            n += 1
+            if len(g.witness) < 10:
+                g.witness.append(Query("w_%d" % k, o.pc, "sat"))
+    if n < 2:
+        raise EncodingError("incref: only %d returning paths" % n)
+    return [g]
+
+
 def c20_all(mir, ctx):
-    return c20_groups(mir, ctx) + c20_columns_group(mir, ctx)
+    return c20_groups(mir, ctx) + c20_columns_group(mir, ctx) + c20_insert_row_limit_group(mir, ctx) + c20_incref_total_group(mir, ctx)
 
 
 # --------------------------------------------------------------------------
@@ -3730,6 +3780,96 @@ def c06_enum_gate_group(mir, ctx):
     return [g]
 
 
+def c20_insert_row_limit_group(mir, ctx):
+    """Insert::exec: the table is rewritten only if (rows already there) + (rows of the batch) stays within the number of
+    rows Table::read_rows accepts -- otherwise the library would save a table it then refuses to read."""
+    cands = [f for n, fs in mir.fns.items() for f in fs if n.endswith("::exec") and f.args and re.search(r"\bInsert\b", f.args[0][1])]
+    if len(cands) != 1:
+        raise EncodingError("Insert::exec not found uniquely in the MIR dump (%d)" % len(cands))
+    fn = cands[0]
+    from .mir_protocol import struct_fields, _confirm_rowlimit
+    # the reader's limit, from the source
+    tsrc = open(os.path.join(REPO, "src/internal/table.rs")).read()
+    ml = re.search(r"const MAX_NUM_TABLE_ROWS: usize = (\d+);", tsrc) or re.search(r"if num_rows > (\d+) \{", tsrc)
+    if not ml:
+        raise EncodingError("the reader's row limit was not found in table.rs")
+    LIMIT = int(ml.group(1))
+    lens = {}
+    it_models, what_of, coll = iter_models(ctx, lens, consistent=True)
+    batch_len = ctx.fresh_int("batch_rows", None, 0, 1 << 40)
+
+    def m_map_len(ex, callee, args, pc, events):
+        e = ctx.fresh_int("existing_rows", None, 0, 1 << 40)
+        return [(pc, events + [("map-len", e.term)], IntV(e.term, "usize"))]
+
+    def m_vec_len(ex, callee, args, pc, events):
+        w = coll(what_of(ex, args[0]))
+        if w == "insert.new_rows":
+            return [(pc, events + [("batch-len",)], IntV(batch_len.term, "usize"))]
+        k = "len:" + w
+        if k not in lens:
+            lens[k] = ctx.fresh_int("len", "usize")
+        return [(pc, events, lens[k])]
+
+    def m_ev(tag, ret):
+        return lambda ex, callee, args, pc, events: [(pc, events + [(tag,)], ret())]
+
+    models = [
+        (r"BTreeMap::<String, Rc<Table>>::get::<", lambda ex, callee, args, pc, events: [(pc, events, EnumV(variant=1, fields=[OpaqueV("rc-table")]))]),
+        (r"Column::is_valid_value$", lambda ex, callee, args, pc, events: [(pc, events, BoolV("true", True))]),
+        (r"BTreeMap::<Vec<Value>, Vec<ValueRef>>::len$", m_map_len), (r"Vec::<Vec<Value>>::len$", m_vec_len),
+        (r"BTreeMap::<Vec<Value>, Vec<ValueRef>>::contains_key::<|HashSet::<Vec<Value>>::contains::<", lambda ex, callee, args, pc, events: [(pc, events, BoolV("false", False))]),
+        (r"HashSet::<Vec<Value>>::insert$", lambda ex, callee, args, pc, events: [(pc, events, BoolV("true", True))]),
+        (r"BTreeMap::<Vec<Value>, Vec<ValueRef>>::insert$", m_ev("map-insert", lambda: EnumV(variant=0, fields=[]))),
+        (r"Table::write_rows::<", m_ev("write", lambda: EnumV(variant=0, fields=[TupleV([])]))),
+    ] + it_models
+    ex = M.Exec(mir, ctx, models=models, havoc_unknown=True, max_paths=400000)
+    ex.max_revisit = 2
+    ex.no_inline = [r"Table::(stream_name|name|columns|long_string_refs|read_rows|primary_key_indices|write_rows)", r"ValueRef::", r"closure"]
+    qsrc = open(os.path.join(REPO, "src/internal/query.rs")).read()
+    ex.new_obj("insert", [OpaqueV("insert." + f) for f in struct_fields(qsrc, "Insert")])
+    outs = ex.run(fn, [M.ObjV("insert"), OpaqueV("comp"), OpaqueV("pool"), OpaqueV("tables")])
+    outs = outs + ex._pending_panics
+    ex._pending_panics = []
+    g = Group("insert_row_limit", ["query::Insert::exec"], confirm=_confirm_rowlimit,
+              note="on every path of Insert::exec that rewrites the table: before any row of the batch is stored, the number of rows already in the "
+                   "table and the number of rows of the batch were read and their sum is at most %d, the number of rows Table::read_rows accepts "
+                   "(symbolic counts); no arithmetic panic on the way" % LIMIT)
+    n = 0
+    for k, o in enumerate(outs):
+        if o.kind == "panic":
+            if "overflow" in (o.msg or ""):
+                g.queries.append(Query("panic_%d" % k, o.pc, "unsat", note="Insert::exec can panic: %s" % o.msg))
+            continue
+        evs = o.events
+        if not any(e[0] == "write" for e in evs):
+            continue
+        n += 1
+        # the first store of a BATCH row (map-inserts while the existing rows are loaded do not count)
+        cur_batch, first_store = False, len(evs)
+        for i, e in enumerate(evs):
+            if e[0] == "elem" and not re.search(r"\]\[|\]\.", e[1]):
+                cur_batch = re.fullmatch(r"insert\.new_rows\[\d+\]", e[1]) is not None
+            elif (e[0] == "map-insert" and cur_batch) or e[0] == "write":
+                first_store = i
+                break
+        before = evs[:first_store]
+        mls = [e for e in before if e[0] == "map-len"]
+        if not mls or not any(e[0] == "batch-len" for e in before):
+            g.queries.append(Query("unlimited_%d" % k, o.pc, "unsat",
+                                   note="the table is rewritten without the resulting number of rows having been compared with the reader's limit of %d rows "
+                                        "(a table with more rows is saved and then refused by the library's own reader)" % LIMIT))
+        else:
+            g.queries.append(Query("limit_%d" % k, o.pc + ["(> (+ %s %s) %d)" % (mls[-1][1], batch_len.term, LIMIT)], "unsat",
+                                   get={"existing_rows": mls[-1][1], "batch_rows": batch_len.term}, note="a batch that brings the table above %d rows is stored" % LIMIT))
+            g.queries.append(Query("accepts_%d" % k, o.pc + ["(<= (+ %s %s) %d)" % (mls[-1][1], batch_len.term, LIMIT)], "sat", note="(reachability) batches within the limit are accepted"))
+        if len(g.witness) < 20:
+            g.witness.append(Query("w_%d" % k, o.pc, "sat"))
+    if n < 2:
+        raise EncodingError("insert row limit: only %d paths reach the write" % n)
+    return [g]
+
+
 def c05_all(mir, ctx):
     return c05_update_group(mir, ctx) + c05_insert_group(mir, ctx) + c05_builder_group(mir, ctx)
 
@@ -3939,6 +4079,13 @@ def run_property(pid, tier, work, known_by_id, replay_dir):
             for k in known_by_id.values():
                 if k.get("property") == pid and k.get("query") == g.name:
                     kf = k
+            if kf and kf.get("match"):
+                # a known finding covers only the counterexamples it names; anything else in the same law is a violation
+                unmatched = [q for q in bad if not any(p_ in (q.note or "") for p_ in kf["match"])]
+                if unmatched:
+                    res["lines"].append("KNOWN-FINDING: property=%s %s [%s]" % (pid, kf["what"], kf["id"]))
+                    bad = unmatched
+                    kf = None
             reproduced, detail = None, "no native replay defined for this law"
             withmodel = [q for q in bad if q.model]
             if g.validation:
